@@ -474,7 +474,7 @@ Fixpoint pk (g : bool) (e : hexp) : bool :=
   | XGuardCfg key _ body => if String.eqb key "allow_pickle" then pk true body else true
   | XTupCons a b | XLet a b | XSlice a b | XDecref a b | XTryExc a b => pk g a && pk g b
   | XAccess _ o n x => pk g o && pk g n && pk g x
-  | XType a | XLookup a | XCtxArgs a => pk g a
+  | XType a | XLookup a | XCtxArgs _ a => pk g a
   | XCall f p st k => pk g f && pk g p && pk g st && pk g k
   | XIfNone c t e | XIfHasConn _ c t e => pk g c && pk g t && pk g e
   | XForward c _ a => pk g c && pk g a
@@ -506,6 +506,18 @@ Definition PRE (env loc : list lval) : state -> Prop := fun s => holds_all s env
 Lemma stable_PRE env loc : stable (PRE env loc). Proof. unfold PRE. auto with stab. Qed.
 Hint Resolve stable_PRE : stab.
 
+Lemma spec_try_exc {A} (pre : state -> Prop) (m h : M A) (post : state -> A -> Prop) :
+  stable pre -> spec pre m post -> spec pre h post -> spec pre (try_exc m h) post.
+Proof.
+  intros St Hm Hh s s' r I P E. unfold try_exc in E. destruct (m s) as [s1 r1] eqn:E1.
+  destruct (Hm _ _ _ I P E1) as (I1 & X1 & Q1).
+  destruct r1 as [a|x|].
+  - injection E as <- <-. split; [exact I1|split; [exact X1|exact Q1]].
+  - destruct (is_exception x).
+    + destruct (Hh _ _ _ I1 (St _ _ X1 P) E) as (I2 & X2 & Q2). split; [exact I2|split; [exact (ext_trans _ _ _ X1 X2)|exact Q2]].
+    + injection E as <- <-. split; [exact I1|split; [exact X1|exact Q1]].
+  - injection E as <- <-. split; [exact I1|split; [exact X1|exact Q1]].
+Qed.
 Lemma spec_eval e : pk (c_pickle C) e = true -> forall env loc, spec (PRE env loc) (eval S C UL BL env loc e) holds.
 Proof.
   induction e; intros Hpk env loc; cbn [eval]; cbn [pk] in Hpk;
@@ -581,15 +593,7 @@ Proof.
     destruct (String.eqb key "allow_pickle"); [|apply spec_unm].
     destruct (c_pickle C) eqn:Ec; [apply IHe; exact Hpk|apply spec_raise].
   - (* XTryExc *)
-    intros s s' r I P E. destruct (eval S C UL BL env loc e1 s) as [s1 r1] eqn:E1.
-    destruct (IHe1 ltac:(assumption) env loc _ _ _ I P E1) as (I1 & X1 & Q1).
-    destruct r1 as [a|x|].
-    + injection E as <- <-. split; [exact I1|split; [exact X1|exact Q1]].
-    + destruct (is_exception x).
-      * destruct (IHe2 ltac:(assumption) env loc _ _ _ I1 (stable_PRE _ _ _ _ X1 P) E) as (I2 & X2 & Q2).
-        split; [exact I2|split; [exact (ext_trans _ _ _ X1 X2)|exact Q2]].
-      * injection E as <- <-. split; [exact I1|split; [exact X1|exact Q1]].
-    + injection E as <- <-. split; [exact I1|split; [exact X1|exact Q1]].
+    apply spec_try_exc; [auto with stab|apply IHe1; assumption|apply IHe2; assumption].
   - (* XIfNone *)
     sp_bind holds; [apply IHe1; assumption|]. intros cv.
     destruct cv; try (sp_pre IHe3; [assumption|tauto]). destruct v; try (sp_pre IHe3; [assumption|tauto]). sp_pre IHe2; [assumption|tauto].
@@ -611,19 +615,17 @@ Proof.
     sp_bind holds; [apply IHe; assumption|]. intros v.
     sp_bind (fun (_ : state) (_ : bool) => True); [sp_pre spec_truthy; tauto|]. intros b.
     destruct b.
-    + intros s s' r I [[_ Hv] _] E.
-      assert (G : forall (s1 : state) (r1 : res lval), Inv s1 -> ext s s1 ->
-                match r1 with
-                | RRaise x => if is_exception x then (s1, ROk (LT [LOpq; LOpq; LOpq])) else (s1, @RRaise lval x)
-                | ROk _ => (s1, @RUnm lval)
-                | RUnm => (s1, @RUnm lval)
-                end = (s', r) -> Inv s' /\ ext s s' /\ (forall a, r = ROk a -> holds s' a)).
-      { intros s1 r1 I1 X1 E1. destruct r1 as [a|x|]; [| destruct (is_exception x)|]; injection E1 as <- <-;
-          (split; [exact I1|split; [exact X1|intros a0 Ha; try discriminate]]). injection Ha as <-. now apply holds_noobj. }
-      destruct v as [?| |o|?|?|? ?|]; try (apply (G s (RRaise (XStd TypeError)) I (ext_refl s) E)).
-      destruct (touch S OpRaise o [] s) as [s1 r1] eqn:Et.
-      destruct (spec_touch (fun s => holds s (LO o)) OpRaise o [] (fun s H => proj1 (holds_LO s o) H) ltac:(discriminate) _ _ _ I Hv Et) as (I1 & X1 & _).
-      exact (G s1 r1 I1 X1 E).
+    + apply spec_try_exc; [auto 10 with stab| |apply spec_ret; intros; now apply holds_noobj].
+      sp_bind (fun (_ : state) (_ : lval) => True); [|intros; apply spec_unm].
+      eapply spec_pre with (pre := fun s => holds s v); [|tauto]. unfold ctx_raise. destruct load.
+      * destruct v as [p| |o|l|idp|? ?|]; try apply spec_unm.
+        -- sp_bind (fun (_ : state) (_ : xid) => True); [apply spec_load_exc|intros; apply spec_raise].
+        -- sp_bind holds; [apply spec_touch; [intros s H; now apply holds_LO|discriminate]|]. intros r0.
+           sp_bind holds; [apply spec_touch; [intros s [H _]; now apply holds_LO|discriminate]|]. intros r.
+           destruct r as [?| |?|l|?|? ?|]; try apply spec_unm. destruct l as [|? [|? [|? [|? [|? ?]]]]]; try apply spec_raise; apply spec_unm.
+        -- destruct l as [|? [|? [|? [|? [|? ?]]]]]; try apply spec_raise; apply spec_unm.
+        -- eapply spec_pre with (pre := fun s => holds_all s [LP idp]); [|auto with stab]. apply spec_converse_any. intros; apply spec_unm.
+      * destruct v; try apply spec_raise. eapply spec_weaken; [apply spec_touch; [intros s H; apply holds_LO; exact H|discriminate]|auto|auto].
     + apply spec_ret. intros s [[_ Hv] _]. apply holds_LT. constructor; [exact Hv|]. constructor; [now apply holds_noobj|]. constructor; [now apply holds_noobj|constructor].
 Qed.
 
@@ -993,27 +995,21 @@ Qed.
 Ltac q4 := first [q3 | lazymatch goal with
   | |- qspec (do_op _ _ _ _ _ _ _) => apply q_do_op
   | |- qspec (decref _ _ _) => apply q_decref end].
+Lemma q_try_exc {A} (m h : M A) : qspec m -> qspec h -> qspec (try_exc m h).
+Proof.
+  intros Hm Hh s s' r E. unfold try_exc in E. destruct (m s) as [s1 r1] eqn:E1. pose proof (Hm _ _ _ E1) as Q1.
+  destruct r1 as [a|x|]; [now injection E as <- <-| |now injection E as <- <-].
+  destruct (is_exception x); [|now injection E as <- <-]. eapply qrel_trans; [exact Q1|exact (Hh _ _ _ E)].
+Qed.
 Lemma q_eval e : forall env loc, qspec (eval S C UL BL env loc e).
 Proof.
   induction e; intros env loc; cbn [eval];
     try (repeat first [q4 | lazymatch goal with |- qspec (eval _ _ _ _ _ _ ?x) =>
                               first [apply IHe | apply IHe1 | apply IHe2 | apply IHe3 | apply IHe4] end]; fail).
-  - (* XTryExc *)
-    intros s s' r E. destruct (eval S C UL BL env loc e1 s) as [s1 r1] eqn:E1. pose proof (IHe1 _ _ _ _ _ E1) as Q1.
-    destruct r1 as [a|x|]; [now injection E as <- <-| |now injection E as <- <-].
-    destruct (is_exception x); [|now injection E as <- <-]. eapply qrel_trans; [exact Q1|exact (IHe2 _ _ _ _ _ E)].
+  - (* XTryExc *) apply q_try_exc; [apply IHe1|apply IHe2].
   - (* XCtxArgs *)
     apply q_bind; [apply IHe|intros v]. apply q_bind; [apply q_truthy|intros b]. destruct b; [|apply q_ret].
-    intros s s' r E.
-    assert (G : forall (s1 : state) (r1 : res lval), qrel s s1 ->
-              match r1 with
-              | RRaise x => if is_exception x then (s1, ROk (LT [LOpq; LOpq; LOpq])) else (s1, @RRaise lval x)
-              | ROk _ => (s1, @RUnm lval)
-              | RUnm => (s1, @RUnm lval)
-              end = (s', r) -> qrel s s').
-    { intros s1 r1 Q E1. destruct r1 as [a|x|]; [|destruct (is_exception x)|]; now injection E1 as <- <-. }
-    destruct v as [?| |o|?|?|? ?|]; try (apply (G s (RRaise (XStd TypeError)) (qrel_refl s) E)).
-    destruct (touch S OpRaise o [] s) as [s1 r1] eqn:Et. exact (G s1 r1 (q_touch _ _ _ _ _ _ Et) E).
+    apply q_try_exc; [|apply q_ret]. apply q_bind; [|intros; apply q_unm]. unfold ctx_raise. repeat q3.
 Qed.
 Lemma q_eval_list l : qspec (eval_list S C UL BL l).
 Proof. induction l; cbn [eval_list]; [apply q_ret|]. apply q_bind; [apply q_eval|intros]. apply q_bind; [exact IHl|intros; apply q_ret]. Qed.
@@ -1233,15 +1229,23 @@ Qed.
 
 (* a request whose first argument is a reference this connection's table does not have (forged, released, or harvested on
    another connection): refused with KeyError under the request's own sequence number; nothing is touched, nothing changes *)
+Lemma unbox_first_miss {W} (S : sem W) C f key rest (s : hst W) : tbl_find key (tbl s) = None ->
+  unbox S C unbox_ladder (Datatypes.S (Datatypes.S f)) (PTuple [PInt 2; PTuple (PTuple [PInt 3; key] :: rest)]) s
+  = (add_ev s (EMiss key), RRaise (XStd KeyError)).
+Proof.
+  intros F. cbn [unbox]. unfold mbind, lift, in_genexpr, resolve. cbn. now rewrite F.
+Qed.
 Theorem forged_reference_refused {W} (S : sem W) (s : hst W) seq h key rest answers :
   closed s = false -> tbl_find key (tbl s) = None ->
   let msg := PTuple [PInt 1; seq; PTuple [h; PTuple [PInt 2; PTuple (PTuple [PInt 3; key] :: rest)]]] in
   exists s', handle_msg S default_config handlers dispatch msg_ladder unbox_ladder box_ladder msg answers s = (s', OExc seq (XStd KeyError))
     /\ wst s' = wst s /\ tbl s' = tbl s /\ tr s' = EMiss key :: EMsg :: tr s /\ closed s' = false.
 Proof.
-  intros Hc F msg. subst msg. unfold handle_msg. rewrite Hc. cbn [Vinegar.unpack iter_elems bind List.length Nat.eqb num_of assoc_z msg_ladder Z.eqb].
-  unfold dispatch_request. cbn [Vinegar.unpack iter_elems bind List.length Nat.eqb lift mbind ret].
-  unfold FUEL. cbn [unbox Vinegar.unpack iter_elems bind List.length Nat.eqb lift mbind ret num_of assoc_z unbox_ladder Z.eqb in_genexpr].
-  unfold resolve at 1. cbn [tbl with_script add_ev with_tr]. rewrite F. cbn [closed with_script add_ev with_tr propagates default_config].
-  eexists. split; [reflexivity|]. cbn. rewrite Hc. auto.
+  intros Hc F msg. subst msg. unfold handle_msg. rewrite Hc.
+  cbn [Vinegar.unpack iter_elems bind List.length Nat.eqb num_of assoc_z msg_ladder Z.eqb].
+  unfold dispatch_request. unfold mbind at 1. cbn [Vinegar.unpack iter_elems bind List.length Nat.eqb lift ret].
+  unfold mbind at 1. change FUEL with (Datatypes.S (Datatypes.S 62)).
+  rewrite (unbox_first_miss S default_config 62 key rest (with_script (add_ev s EMsg) answers)) by exact F.
+  cbn [closed with_script add_ev with_tr]. rewrite Hc. cbn [propagates].
+  eexists. split; [reflexivity|]. cbn. auto.
 Qed.
